@@ -90,6 +90,30 @@ def run(tier):
         if em:
             ev.sample({"kind": "replayed-input(colliding checksums)", "input": em[0]["input"], "predicted": em[0]["res"]}, limit=4)
 
+    # ---- the long collision chain: 12 single-block files with one stored size and one checksum, then a copy of one of them:
+    #      the candidate search of deduplicate_blocks at a depth the general bounds (<= 3 files) cannot reach ---------------
+    chain = list("defghijklmno")
+    ccfg = work + "/chain.cfg"
+    cc = dict(nf=len(chain) + 1, mb=1, ids=["z"] + chain, backlogs=(3, 10), flagsets=[[]], tails=(1,), chain=chain)
+    bpbind.cfg_for(ccfg, invariants=PROPS, **cc)
+    r = run_tlc("BlockProc", ccfg, workers=8, timeout=1200, heap="12g")
+    ev.tlc(r, "BlockProc collision chain of %d files" % len(chain))
+    if not r["ok"]:
+        print("MODEL-FAILURE: BlockProc (collision chain) violates %s" % r["violated"])
+        ev.write()
+        return 2
+    bpbind.cfg_for(ccfg, emit=True, invariants=PROPS, **cc)
+    r = run_tlc("BlockProc", ccfg, workers=8, timeout=1200, heap="12g")
+    em = bpbind.parse_emitted(r["out"])
+    ev.set("collision_chain_inputs", len(em))
+    n, bad = bpbind.replay(binp, work, em, workers=(1, 3), tag="c08_chain")
+    total += n
+    for (e, W, what, exp, got) in bad[:3]:
+        p = work + "/viol_chain_%d.txt" % W
+        bpbind.input_file(p, e["input"], e["mb"], W)
+        rep.violation("dedup-layout", "real block processor with colliding checksums (%d workers, backlog %d): %s for the collision chain %s"
+                      % (W, e["mb"], what, json.dumps([f["blocks"] for f in e["input"]])), artefact=p, data={"input": e["input"], "predicted": exp, "real": got})
+
     # ---- tool level: truncated checksums, read everything back -----------------------------------
     reader = build.build("plain") + "/bin"
     runs = 0
@@ -112,6 +136,11 @@ def run(tier):
                     names.append("f%02d" % i)
                 s.add_file("/dupA", s.files["f00"])
                 s.add_file("/dupB", s.files["f00"])
+                # a chain of distinct one-block files of equal stored size (with few checksum bits many of them collide), then copies
+                for i in range(24):
+                    s.add_file("/k%02d" % i, gen.content(r2, "random", bs))
+                s.add_file("/kdup_first", s.files["k00"])
+                s.add_file("/kdup_last", s.files["k23"])
                 out = s.dir + "/img.sqfs"
                 for j in (1, 4):
                     rc, o, e = sh([packer + "/gensquashfs", "-q", "-f", "-c", comp, "-b", str(bs), "-j", str(j), "-F", s.packfile(), out], timeout=120)
